@@ -175,7 +175,28 @@ def make_pobs_list(ctx, rng, nobs, data, nmax, different=False):
     obs = []
     for k in range(nobs):
         sub = lay[e]
-        if different and k > 0:
+        if different and k > 0 and rng.random() < 0.35:
+            # same first and last configuration and the same number of configurations, different interior
+            # (everything a cheap signature of the list would look at agrees; added after seeded change seed3-C12)
+            sub = {}
+            for c in lay[e]:
+                cf = sorted(lay[e][c])
+                free = sorted(set(range(cf[0] + 1, cf[-1])) - set(cf))
+                new = list(cf)
+                if free and len(cf) > 3:
+                    for _ in range(int(rng.integers(1, 4))):
+                        new[int(rng.integers(1, len(cf) - 1))] = int(rng.choice(free))
+                    new = sorted(set(new))
+                    while len(new) < len(cf):
+                        cand = [x for x in range(cf[0] + 1, cf[-1]) if x not in new]
+                        if not cand:
+                            break
+                        new = sorted(new + [int(rng.choice(cand))])
+                else:
+                    # no room inside a contiguous list: spread it out, keeping the number of configurations
+                    new = [cf[0]] + sorted(int(x) for x in rng.choice(np.arange(cf[0] + 1, cf[0] + 3 * len(cf)), size=len(cf) - 2, replace=False)) + [cf[0] + 3 * len(cf)]
+                sub[c] = new
+        elif different and k > 0:
             sub = {c: subset(rng, lay[e][c], str(rng.choice(['prefix', 'suffix', 'stride', 'random']))) for c in lay[e]}
         o = rt_io.primary(PE, rng, sub, str(rng.choice(kinds)))
         obs.append(o)
